@@ -1,6 +1,7 @@
 import PysnarkModel.Driver.Proto
 import PysnarkModel.Driver.ProtoLC
 import PysnarkModel.Driver.ProtoSnarkjs
+import PysnarkModel.Driver.ProtoGuard
 open Pysnark Pysnark.Proto
 
 def handle (line : String) : String :=
@@ -9,6 +10,7 @@ def handle (line : String) : String :=
   | "E" :: rest => ProtoLC.handleExpr rest
   | "I" :: rest => ProtoLC.handleInv rest
   | "J" :: rest => ProtoSnarkjs.handleSnarkjs rest
+  | "H" :: rest => ProtoGuard.handleHist rest
   | _ => "bad-line"
 
 partial def loop (h : IO.FS.Stream) (out : IO.FS.Stream) : IO Unit := do
